@@ -4,13 +4,14 @@ import time
 from framework.checklib import CorrResult
 from framework import coqrun
 from harness import coqterm as ct, env, gen, wforacle
-from translator import t1_operators, t6_converters
+from translator import t1_operators, t6_converters, t9_circuit_core
 
 ID = 'C02'
-TRANSLATORS = [t1_operators.translate, t6_converters.translate]
+TRANSLATORS = [t1_operators.translate, t6_converters.translate, t9_circuit_core.translate]
 PROPERTY_FILE = 'Properties/C02.v'
 THEOREMS = ['C02_empty_wf', 'C02_step_wf', 'C02_history_wf', 'C02_history_wf_from_empty', 'C02_into_bench_regenerated_wf',
-            'C02_wfb_sound', 'C02_wfb_complete', 'C02_example']
+            'C02_wfb_sound', 'C02_wfb_complete', 'C02_core_methods_regenerated',
+            'C02_core_methods_regenerated_2', 'C02_core_removal_regenerated_wf', 'C02_example']
 PARTIAL = {}
 LEVEL_TEXT = ('proved for every modelled public mutator (all 24 constructors of History.op: add_gate/emplace_gate, '
               'add_inputs, remove_gate, rename_gate, mark_as_output, set_outputs, set_inputs, order_inputs, '
@@ -18,17 +19,30 @@ LEVEL_TEXT = ('proved for every modelled public mutator (all 24 constructors of 
               'connect_circuit + 5 wrappers, replace_subcircuit, into_bench, copy, Block.into_circuit) and lifted to '
               'arbitrary histories by induction: the invariant WF /\\ inputs_nullary holds after every call that '
               'returns normally; the executable check wfb used on dumped implementation states is proved equivalent '
-              'to WF; code tie by exact correspondence of the full state after every call of generated histories')
+              'to WF; code tie by exact correspondence of the full state after every call of generated histories; '
+              'in addition the simple mutators/validators are regenerated from the source by translator T9 and proved '
+              'equal to the model (C02_core_methods_regenerated, C02_core_methods_regenerated_2: 35 functions of '
+              'validation.py / utils.py / circuit.py incl. rename_gate and Block._rename_gate)')
 LEVEL_NOTE = ('Coq kernel + vm_compute; hand-written model (Model/Circuit.v, Connect.v, Traverse.v, History.v); translator T1; '
               'the rewrite rules of into_bench are regenerated from converters.py by translator T6 and proved to have the same '
               'normal returns as the model (C02_into_bench_regenerated_wf, Properties/C14.v C14_rules_regenerated); '
+              'the simple mutators/validators are regenerated from the source by translator T9 and proved equal to the '
+              'model (has_gate get_gate get_gate_users get_block, the five check_* of validation.py, order_list, '
+              '_add_user _remove_user _emplace_gate _add_gate emplace_gate add_gate add_inputs mark_as_output set_outputs '
+              'set_inputs order_inputs order_outputs replace_inputs delete_block make_block _remove_gate remove_gate '
+              '_remove_block remove_block rename_gate Block._rename_gate input_at_index output_at_index index_of_input '
+              'all_indexes_of_output; the four removal methods under "block-dict keys unique", part of WF), so for '
+              'these the trusted part is T9 (statement-level Python-ast -> Gallina, fail closed, with an aliasing '
+              'discipline) instead of a hand transcription; make_block_from_slice, connect*, '
+              'replace_subcircuit, copy remain hand-written and tied by correspondence only; '
               'correspondence harness. Hypotheses of the theorems (op_ok): the start state satisfies WF and '
               '"INPUT gates have no operands" (companion invariant, forced: replace_inputs / into_bench / right '
               'connection break WF otherwise); an emplaced INPUT gate has no operands; circuit arguments of '
               'connect*/replace_subcircuit satisfy the same invariant; for into_bench the comparison-like gates '
               '(LT LEQ GT GEQ LIFF RIFF LNOT RNOT) have at most two operands. Calls that raise are outside the '
               'statement (the model returns Err and the history stops); fuel exhaustion of the model loops is Err too')
-TECHNIQUE = ('Coq proof by per-operation invariant preservation (one lemma per public mutator: users-index '
+TECHNIQUE = ('the simple mutators/validators are regenerated from the source by translator T9 and proved equal to the '
+             'model (equality lemma per method, Proofs/CircuitCoreGen.v); Coq proof by per-operation invariant preservation (one lemma per public mutator: users-index '
              'multiset bookkeeping with count, explicit rank for acyclicity, relaxed loop invariants WFmod / WFpre / '
              'WFcore / Jinv for the mutators whose intermediate states are not well formed, cycle-check soundness '
              'for replace_subcircuit) + induction over the history; model tied to /repo by correspondence of the '
